@@ -373,6 +373,150 @@ func runCase(c cfgT) (key, detail string) {
 	return "", ""
 }
 
+// ---- index lookups over a name / type alphabet ----
+
+var idxNames = []string{"n", "a-b", "a_b", "a.b", "A-B", "a--b", "typing_extensions", "Zope.Interface", "@scope/pkg", "github.com/x/y", "n 1", "ü"}
+var idxTypes = []string{"pypi", "npm", "golang", "deb", "generic"}
+
+// normName: the coarsest name equivalence any ecosystem defines (PEP 503: case-insensitive, runs of
+// '-', '_', '.' are one separator). An index may treat such names as one package; it may never
+// lose a package under the exact name of its own package URL.
+func normName(n string) string {
+	n = strings.ToLower(n)
+	var b strings.Builder
+	sep := false
+	for _, c := range n {
+		if c == '-' || c == '_' || c == '.' {
+			sep = true
+			continue
+		}
+		if sep {
+			b.WriteByte('-')
+			sep = false
+		}
+		b.WriteRune(c)
+	}
+	if sep {
+		b.WriteByte('-')
+	}
+	return b.String()
+}
+
+type idxPkg struct{ name, typ string }
+
+// indexCase scans an inventory made of pkgs (half from the filesystem extractor, half from the
+// standalone one) and lets one detector query the index for every (name, type) of the alphabet.
+func indexCase(pkgs []idxPkg) (key, detail string) {
+	mk := func(d idxPkg) *extractor.Package {
+		return &extractor.Package{Name: d.name, Version: "1", Locations: []string{"f.pkg"}, Metadata: &metaT{d.typ}}
+	}
+	fe := &fsEx{scankit.Ex{N: "fs-ex", Req: scankit.ReqBase("f.pkg"), Out: func(e *scankit.Ex, in *filesystem.ScanInput, _ []byte, _ error) (inventory.Inventory, error) {
+		var inv inventory.Inventory
+		for i, d := range pkgs {
+			if i%2 == 0 {
+				inv.Packages = append(inv.Packages, mk(d))
+			}
+		}
+		return inv, nil
+	}}}
+	se := &stEx{scankit.StEx{N: "st-ex", Fn: func(context.Context, *standalone.ScanInput) (inventory.Inventory, error) {
+		var inv inventory.Inventory
+		for i, d := range pkgs {
+			if i%2 == 1 {
+				inv.Packages = append(inv.Packages, mk(d))
+			}
+		}
+		return inv, nil
+	}}}
+	var problems []string
+	ran := 0
+	det := &scankit.Det{N: "det-0", Fn: func(_ context.Context, _ *scalibrfs.ScanRoot, px *packageindex.PackageIndex) ([]*detector.Finding, error) {
+		ran++
+		id := func(p *extractor.Package) idxPkg { return idxPkg{p.Name, p.Metadata.(*metaT).typ} }
+		for _, t := range idxTypes {
+			wantT := map[idxPkg]int{}
+			for _, d := range pkgs {
+				if d.typ == t {
+					wantT[d]++
+				}
+			}
+			gotT := map[idxPkg]int{}
+			for _, p := range px.GetAllOfType(t) {
+				gotT[id(p)]++
+			}
+			if !reflect.DeepEqual(wantT, gotT) {
+				problems = append(problems, fmt.Sprintf("GetAllOfType(%q)=%v want %v", t, gotT, wantT))
+			}
+			for _, n := range idxNames {
+				got := px.GetSpecific(n, t)
+				has := false
+				for _, p := range got {
+					g := id(p)
+					if g == (idxPkg{n, t}) {
+						has = true
+					}
+					if g.typ != t || normName(g.name) != normName(n) {
+						problems = append(problems, fmt.Sprintf("GetSpecific(%q,%q) returned foreign package %v", n, t, g))
+					}
+				}
+				if wantT[idxPkg{n, t}] > 0 && !has {
+					problems = append(problems, fmt.Sprintf("GetSpecific(%q,%q) does not return the package pkg:%s/%s that is in the inventory (got %d packages)", n, t, t, n, len(got)))
+				}
+			}
+		}
+		if len(px.GetAll()) != len(pkgs) {
+			problems = append(problems, fmt.Sprintf("GetAll returns %d packages, %d extracted", len(px.GetAll()), len(pkgs)))
+		}
+		return nil, nil
+	}}
+	cfg := &scalibr.ScanConfig{
+		FilesystemExtractors: []filesystem.Extractor{fe},
+		StandaloneExtractors: []standalone.Extractor{se},
+		Detectors:            []detector.Detector{det},
+		Capabilities:         &plugin.Capabilities{},
+		ScanRoots:            []*scalibrfs.ScanRoot{{FS: memfs.New(memfs.D("", memfs.F("f.pkg", "x"))), Path: ""}},
+	}
+	p, stack := ev.Recover(func() { scalibr.New().Scan(context.Background(), cfg) })
+	if p != nil {
+		return "panic:" + ev.PanicSite(stack), fmt.Sprint(p)
+	}
+	if ran != 1 {
+		return "detector-run-count", fmt.Sprintf("det-0 ran %d times", ran)
+	}
+	if len(problems) > 0 {
+		return "index-lookup-by-purl-name", strings.Join(problems[:min(3, len(problems))], "; ")
+	}
+	return "", ""
+}
+
+// indexNames: every single (name, type) package, every pair of names of one type, and the whole
+// alphabet at once.
+func indexNames(r *ev.Run) {
+	var cases [][]idxPkg
+	var all []idxPkg
+	for _, t := range idxTypes {
+		for _, n := range idxNames {
+			cases = append(cases, []idxPkg{{n, t}})
+			all = append(all, idxPkg{n, t})
+		}
+		for i, a := range idxNames {
+			for _, b := range idxNames[i+1:] {
+				cases = append(cases, []idxPkg{{a, t}, {b, t}}, []idxPkg{{b, t}, {a, t}})
+			}
+		}
+	}
+	cases = append(cases, all)
+	r.ParallelFor(len(cases), func(i int) {
+		k, d := indexCase(cases[i])
+		r.Evals.Add(1)
+		r.Nontrivial.Add(1)
+		if k != "" {
+			r.Violation(k, fmt.Sprintf("inventory %v: %s", cases[i], d), map[string]any{"index_inventory": fmt.Sprint(cases[i])})
+		}
+	})
+	r.Set("index_name_cases", len(cases))
+}
+
 func main() {
 	scankit.Quiet()
 	r := ev.Start("C20", "exploration", 3*time.Minute, 30*time.Minute)
@@ -440,5 +584,6 @@ func main() {
 		}
 		r.Set(fmt.Sprintf("detector_lists_of_length_%d", pl.k), total)
 	}
-	r.Finish("every ordered list of 0..2 detectors over all 86 scripts (finding lists of length <=2 over {X/body1, X/body2 (other title), X/body1 with another nested CVSS score, Y/body1, no advisory, no advisory id} x {ok, error}) x all 16 inventories (2 packages from a filesystem extractor, 2 from a standalone extractor, one without PURL, two versions of one name); lists of 3 over the 14 short scripts (thorough: all 86 scripts x 3 inventories; lists of 4 over short scripts); for lists with >=2 findings and the empty/full inventory also with findings that all carry the same Extra text (differing only in target location, or identical); real Scanner.Scan vs reference model of the detector run", complete)
+	indexNames(r)
+	r.Finish("every ordered list of 0..2 detectors over all 86 scripts (finding lists of length <=2 over {X/body1, X/body2 (other title), X/body1 with another nested CVSS score, Y/body1, no advisory, no advisory id} x {ok, error}) x all 16 inventories (2 packages from a filesystem extractor, 2 from a standalone extractor, one without PURL, two versions of one name); lists of 3 over the 14 short scripts (thorough: all 86 scripts x 3 inventories; lists of 4 over short scripts); for lists with >=2 findings and the empty/full inventory also with findings that all carry the same Extra text (differing only in target location, or identical); index lookups: every single package, every ordered pair of one type and the whole alphabet of 12 names (separators - _ . , case, scope, slash, space, non-ASCII) x 5 purl types, each queried by GetSpecific/GetAllOfType for every (name,type); real Scanner.Scan vs reference model of the detector run", complete)
 }
